@@ -25,11 +25,14 @@ func (s *Server) periodicBackup(ctx context.Context) {
 			} else {
 				lastWriteGen = gen
 			}
-			select {
-			case <-time.After(time.Minute):
-			case <-ctx.Done():
-				return
-			}
+		}
+		// Wait whether or not there was anything to back up: without this the
+		// loop spins on the database lock while nothing changes, and never
+		// notices that ctx has ended.
+		select {
+		case <-time.After(time.Minute):
+		case <-ctx.Done():
+			return
 		}
 	}
 }
